@@ -206,3 +206,116 @@ pub proof fn lemma_mo_final(o: Seq<Range<usize>>, r: Seq<Range<usize>>, c: int, 
         }
     }
 //@end
+
+pub proof fn lemma_insert_contains(s: Seq<Range<usize>>, i: int, a: Range<usize>)
+    requires 0 <= i <= s.len(),
+    ensures forall|x: Range<usize>| #[trigger] s.insert(i, a).contains(x) <==> (s.contains(x) || x == a),
+{
+    let t = s.insert(i, a);
+    assert forall|x: Range<usize>| #[trigger] t.contains(x) <==> (s.contains(x) || x == a) by {
+        if t.contains(x) {
+            let k = choose|k: int| 0 <= k < t.len() && t[k] == x;
+            if k < i { assert(s[k] == x); } else if k == i { } else { assert(s[k - 1] == x); }
+        }
+        if s.contains(x) {
+            let k = choose|k: int| 0 <= k < s.len() && s[k] == x;
+            if k < i { assert(t[k] == x); } else { assert(t[k + 1] == x); }
+        }
+        if x == a { assert(t[i] == x); }
+    }
+}
+
+pub proof fn lemma_insert_sorted(s: Seq<Range<usize>>, i: int, a: Range<usize>)
+    requires
+        0 <= i <= s.len(), sorted_by_start(s),
+        forall|k: int| 0 <= k < i ==> (#[trigger] s[k]).start <= a.start,
+        forall|k: int| i <= k < s.len() ==> a.start <= (#[trigger] s[k]).start,
+    ensures sorted_by_start(s.insert(i, a)),
+{
+    let t = s.insert(i, a);
+    assert forall|x: int, y: int| 0 <= x < y < t.len() implies (#[trigger] t[x]).start <= (#[trigger] t[y]).start by {
+        let sx = if x < i { x } else { x - 1 };
+        let sy = if y < i { y } else { y - 1 };
+        if x != i && y != i { assert(s[sx].start <= s[sy].start); }
+        else if x == i { assert(a.start <= s[sy].start); }
+        else { assert(s[sx].start <= a.start); }
+    }
+}
+
+//@fn id=merge_ranges file=code/formatter.rs name=merge_ranges props=C01,C02,C04,C12,C13,C14
+//@requires
+    old(ranges)@.len() + new_ranges@.len() <= usize::MAX,
+//@ensures label=merge_ranges_members props=C01,C02,C04,C14
+    old(ranges)@.len() == 0 ==> final(ranges)@ == old(ranges)@,
+    old(ranges)@.len() > 0 ==> final(ranges)@.len() == old(ranges)@.len() + new_ranges@.len(),
+    old(ranges)@.len() > 0 ==> forall|x: Range<usize>| #[trigger] final(ranges)@.contains(x) <==> (old(ranges)@.contains(x) || new_ranges@.contains(x)),
+//@ensures label=merge_ranges_sorted props=C12,C13
+    old(ranges)@.len() > 0 && sorted_by_start(old(ranges)@) ==> sorted_by_start(final(ranges)@),
+//@loop 1
+//@invariant
+    ranges@.len() > 0,
+    new_ranges@.len() <= __n0.len(),
+    __n0 == __np,
+    new_ranges@ =~= __n0.subrange(0, new_ranges@.len() as int),
+    ranges@.len() + new_ranges@.len() == old(ranges)@.len() + __n0.len(),
+    old(ranges)@.len() + __n0.len() <= usize::MAX,
+    forall|x: Range<usize>| #[trigger] ranges@.contains(x) <==> (old(ranges)@.contains(x) || __n0.subrange(new_ranges@.len() as int, __n0.len() as int).contains(x)),
+    sorted_by_start(old(ranges)@) ==> sorted_by_start(ranges@),
+//@loop-ensures
+    new_ranges@.len() == 0,
+//@decreases
+    new_ranges@.len()
+//@breaktype 1 type="Option<usize>"
+//@loop 2
+//@invariant_except_break
+    cursor < ranges@.len(),
+    forall|k: int| cursor < k < ranges@.len() ==> (#[trigger] ranges@[k]).start >= new_range.start,
+//@loop-ensures
+    match __lv1 {
+        Some(c) => c < ranges@.len() && ranges@[c as int].start < new_range.start
+            && forall|k: int| c < k < ranges@.len() ==> (#[trigger] ranges@[k]).start >= new_range.start,
+        None => forall|k: int| 0 <= k < ranges@.len() ==> (#[trigger] ranges@[k]).start >= new_range.start,
+    },
+//@decreases
+    cursor
+//@at before "let mut new_ranges = new_ranges;"
+    let ghost __np = new_ranges@;
+//@at before "while !new_ranges.is_empty()"
+    let ghost __n0 = new_ranges@;
+    proof {
+        assert(__n0.subrange(__n0.len() as int, __n0.len() as int) =~= Seq::<Range<usize>>::empty());
+    }
+//@at loop 1 start
+    let ghost __r0 = ranges@;
+    let ghost __k0 = new_ranges@.len() as int;
+//@at before "match cursor {" 2
+    proof {
+        let i: int = match cursor { Some(c) => c + 1, None => 0 };
+        lemma_insert_contains(__r0, i, new_range);
+        if sorted_by_start(__r0) {
+            assert forall|k: int| 0 <= k < i implies (#[trigger] __r0[k]).start <= new_range.start by {
+                assert(__r0[k].start <= __r0[i - 1].start);
+            }
+            lemma_insert_sorted(__r0, i, new_range);
+        }
+        let a = __n0.subrange(__k0 - 1, __n0.len() as int);
+        let b = __n0.subrange(__k0, __n0.len() as int);
+        assert(new_range == __n0[__k0 - 1]);
+        assert(a =~= seq![new_range] + b);
+        assert forall|x: Range<usize>| a.contains(x) <==> (b.contains(x) || x == new_range) by {
+            if a.contains(x) {
+                let k = choose|k: int| 0 <= k < a.len() && a[k] == x;
+                if k > 0 { assert(b[k - 1] == x); }
+            }
+            if b.contains(x) {
+                let k = choose|k: int| 0 <= k < b.len() && b[k] == x;
+                assert(a[k + 1] == x);
+            }
+            if x == new_range { assert(a[0] == x); }
+        }
+    }
+//@at body-end
+    proof {
+        assert(__n0.subrange(0, __n0.len() as int) =~= __n0);
+    }
+//@end
